@@ -65,6 +65,8 @@ def _replay_with_spelling(case: Dict[str, Any], spelling: str, seed: int) -> Dic
 def _history_part(ctx: Ctx, quick: bool) -> None:
     res, cases = hr.gc_history_cases(exhaustive_len=2 if quick else 3, sample=40 if quick else 400, sample_len=7, seed=ctx.seed, workers=8)
     ctx.add_tlc(res)
+    if not res.ok and res.timed_out and not res.violated:
+        raise MachineryError("History.tla (gc mode): the time limit ended TLC before the histories were exported")
     if not res.ok:
         ctx.violation("model:History.gc", f"TLC: {res.violated or 'timeout'} in History.tla (gc mode)", res.error_trace[:4000])
         return
